@@ -40,6 +40,7 @@ type EvictPlan struct {
 	NewLimit   int64        `json:"new_limit,omitempty"`    // limit changed at run time before the trigger
 	PreLimit   int64        `json:"pre_limit,omitempty"`    // with NewLimit: another value is set first, NewLimit right behind it (two notifications in flight)
 	NewIntMs   int64        `json:"new_interval,omitempty"` // interval changed at run time before the trigger
+	IntBack    bool         `json:"interval_back,omitempty"` // with NewIntMs: the interval is then set back to the one the cache started with
 	Trigger    string       `json:"trigger"`                // "store" | "tick"
 	TrigSize   int          `json:"trig_size"`
 	Interferer int          `json:"interferer"`     // 0 none; else size of a slow concurrent store on another key
@@ -102,8 +103,10 @@ func genEvictPlan(r *rand.Rand) *EvictPlan {
 			p.PreLimit = []int64{total * 8, 1000, total / 3}[r.IntN(3)]
 		}
 	}
-	if r.IntN(5) == 0 && p.Trigger == "tick" {
-		p.NewIntMs = []int64{1000, 2500}[r.IntN(2)]
+	if r.IntN(4) == 0 && p.Trigger == "tick" {
+		p.NewIntMs = []int64{1000, 2500, 3600000}[r.IntN(3)]
+		// ... and back again: the value in force afterwards is the one the cache started with
+		p.IntBack = r.IntN(2) == 0
 	}
 	if r.IntN(4) == 0 {
 		p.Interferer = 600 * evKiB
@@ -159,7 +162,7 @@ func runEvictPlan(t *testing.T, planAny any, ctl Ctl) *Result {
 	var seq int64
 	var trigErr error
 	var start, trigStartT, trigEndT time.Time
-	var evictionsBefore, evictionsAfter, cyclesAtTrigger int64
+	var evictionsBefore, evictionsAfter, cyclesAtTrigger, evCyclesAfter int64
 	bubble(t, res, func() {
 		metrics.Global = metrics.NewMetrics()
 		s := zzsim.New(ctl.Seed, racePol(p.Pol))
@@ -247,6 +250,10 @@ func runEvictPlan(t *testing.T, planAny any, ctl Ctl) *Result {
 			}
 			if p.NewIntMs > 0 {
 				config.UpdatePartialFromConfig(cfg, map[string]any{"cache": map[string]any{"cleanup_interval": (time.Duration(p.NewIntMs) * time.Millisecond).String()}})
+				if p.IntBack {
+					s.WaitUntil("harness:ev-notify", time.Now().Add(5*time.Millisecond))
+					config.UpdatePartialFromConfig(cfg, map[string]any{"cache": map[string]any{"cleanup_interval": (time.Duration(p.IntervalMs) * time.Millisecond).String()}})
+				}
 			}
 			// let the notifications be delivered (they are separate tasks)
 			s.WaitUntil("harness:ev-notify", time.Now().Add(5*time.Millisecond))
@@ -275,12 +282,21 @@ func runEvictPlan(t *testing.T, planAny any, ctl Ctl) *Result {
 				for i := 0; i < 400 && metrics.Global.Cache.CleanupRuns.Get() == cyclesAtTrigger; i++ {
 					s.WaitUntil("harness:ev-tick", time.Now().Add(250*time.Millisecond))
 				}
+				// the interval in force governs the following cycles: one must have come by now
+				inForce := p.IntervalMs
+				if p.NewIntMs > 0 && !p.IntBack {
+					inForce = p.NewIntMs
+				}
+				if waited := time.Since(trigStartT); metrics.Global.Cache.CleanupRuns.Get() == cyclesAtTrigger && waited > 2*time.Duration(inForce)*time.Millisecond+time.Second {
+					res.violate("C13.f", "no-cycle-within-the-interval-in-force", "no cleanup cycle ran in %v although the interval in force is %v (started with %v, changed to %v at run time, set back: %v)", waited.Round(time.Millisecond), time.Duration(inForce)*time.Millisecond, time.Duration(p.IntervalMs)*time.Millisecond, time.Duration(p.NewIntMs)*time.Millisecond, p.IntBack)
+				}
 			}
 			resMu.Lock()
 			seq++
 			trigRet = seq
 			resMu.Unlock()
 			trigEndT = time.Now()
+			evCyclesAfter = metrics.Global.Cache.CleanupRuns.Get()
 			after = evSnap(cache.VerifPeek(c))
 			evictionsAfter = metrics.Global.Cache.CacheEvictions.Get()
 		})
@@ -314,6 +330,12 @@ func runEvictPlan(t *testing.T, planAny any, ctl Ctl) *Result {
 		}
 	})
 	if res.Infra != "" || before == nil || after == nil {
+		return res
+	}
+	if p.Trigger == "tick" && evCyclesAfter == cyclesAtTrigger {
+		// no cycle ran while the driver waited (the interval in force is longer than that, or the
+		// rule above has reported it): there is no cycle to judge
+		res.Probes["no_cycle_in_window"]++
 		return res
 	}
 	judgeEvict(p, res, keys, before, after, trigErr, intCall > 0 && intCall < trigRet && intRet > trigCall, start, trigStartT, trigEndT, evictionsAfter-evictionsBefore)
